@@ -5,7 +5,11 @@ for id in "$@"; do
   if ! git -C /repo diff --quiet; then echo "/repo has uncommitted changes; refusing"; exit 2; fi
   git -C /repo apply /verif/seeded/$id/patch.diff || { echo "$id: patch does not apply"; continue; }
   start=$(date +%s)
+  cp evidence/$id.json /tmp/evidence_keep_$id.json 2>/dev/null
   out=$(./check $id 2>&1); rc=$?
+  # the evidence file committed must describe the unchanged tree, not this run
+  cp evidence/$id.json seeded/$id/evidence_with_change.json 2>/dev/null
+  cp /tmp/evidence_keep_$id.json evidence/$id.json 2>/dev/null
   git -C /repo checkout -- . ; git -C /repo status --short | grep -v '^??' | head -2
   echo "== $id rc=$rc ($(( $(date +%s) - start )) s)"
   echo "$out" | grep -E '^(problem|violation|VIOLATION|KNOWN|.*held)' | cut -c1-260 | head -8
